@@ -50,8 +50,11 @@ func c18paths(c *Ctx) {
 		filepath.Dir(runtime.GOROOT()),
 		// directories written with a trailing separator
 		"/srv/vault/", "/opt/keys and certs/",
+		// directories in a spelling that is not the canonical one (a doubled separator, a dot segment: joined from
+		// configuration values) - paths are spelled the same way
+		"/srv//ci/builds", "/srv/ci/./cache",
 		"/ci/" + strings.Repeat("w", 59), "/ci/" + strings.Repeat("x", 60), "/ci/" + strings.Repeat("y", 61), "/store/" + strings.Repeat("0123456789abcdef", 7) + "/objects", "/deep/" + strings.Repeat("segment-of-a-long-path/", 12) + "end"}
-	replPool := []string{"~d", "~p", "$SRV", "~w", "~alice", "CI:", "~deep", "~gosrc", "~work", "~tmp", "~u", "~bin", "~ws", "~stage", "~brace", "", "", "GH:acme", "~pc", "W:", "/srv/data/projects/work", "/billing", "~sdk", "@vault/", "K:", "~L63", "~L64", "~L65", "~store", "~long"}
+	replPool := []string{"~d", "~p", "$SRV", "~w", "~alice", "CI:", "~deep", "~gosrc", "~work", "~tmp", "~u", "~bin", "~ws", "~stage", "~brace", "", "", "GH:acme", "~pc", "W:", "/srv/data/projects/work", "/billing", "~sdk", "@vault/", "K:", "~dbl", "~dot", "~L63", "~L64", "~L65", "~store", "~long"}
 	if len(prefixPool) != len(replPool) {
 		panic("harness: prefixPool and replPool differ in length")
 	}
